@@ -35,10 +35,14 @@ impl FlowControl {
         loop {
             // We didn't have space available; set up a notification
             // so we can wait for it and check again.
+            #[cfg(deltio_verif)]
+            crate::verif::sync_point("fc.mk", 0);
             let notified = self.notifier.notified();
             if self.has_available_space() {
                 return;
             }
+            #[cfg(deltio_verif)]
+            crate::verif::sync_point("fc.aw", 0);
             notified.await;
         }
     }
@@ -46,20 +50,32 @@ impl FlowControl {
     /// Increments the outstanding values.
     pub fn inc(&self, outstanding_bytes_delta: u64, outstanding_messages_delta: u64) {
         // We only need Acq/Rel ordering because our changes are commutative.
+        #[cfg(deltio_verif)]
+        crate::verif::sync_point("fc.ab", 0);
         self.outstanding_bytes
             .fetch_add(outstanding_bytes_delta, Ordering::AcqRel);
+        #[cfg(deltio_verif)]
+        crate::verif::sync_point("fc.am", 0);
         self.outstanding_messages
             .fetch_add(outstanding_messages_delta, Ordering::AcqRel);
+        #[cfg(deltio_verif)]
+        crate::verif::sync_point("fc.nw", 0);
         self.notifier.notify_waiters();
     }
 
     /// Increments the outstanding values.
     pub fn dec(&self, outstanding_bytes_delta: u64, outstanding_messages_delta: u64) {
         // We only need Acq/Rel ordering because our changes are commutative.
+        #[cfg(deltio_verif)]
+        crate::verif::sync_point("fc.ab", 0);
         self.outstanding_bytes
             .fetch_sub(outstanding_bytes_delta, Ordering::AcqRel);
+        #[cfg(deltio_verif)]
+        crate::verif::sync_point("fc.am", 0);
         self.outstanding_messages
             .fetch_sub(outstanding_messages_delta, Ordering::AcqRel);
+        #[cfg(deltio_verif)]
+        crate::verif::sync_point("fc.nw", 0);
         self.notifier.notify_waiters();
     }
 
@@ -68,12 +84,20 @@ impl FlowControl {
     /// This uses atomic load operations. It is acceptable that we go above
     /// the limits.
     pub fn has_available_space(&self) -> bool {
+        #[cfg(deltio_verif)]
+        crate::verif::sync_point("fc.lm", 0);
         let available_messages = self.outstanding_messages.load(Ordering::Acquire);
+        #[cfg(deltio_verif)]
+        crate::verif::emit("fc.load", |_| serde_json::json!({"what": "m", "v": available_messages}));
         if available_messages >= self.max_outstanding_messages {
             return false;
         }
 
+        #[cfg(deltio_verif)]
+        crate::verif::sync_point("fc.lb", 0);
         let available_bytes = self.outstanding_bytes.load(Ordering::Acquire);
+        #[cfg(deltio_verif)]
+        crate::verif::emit("fc.load", |_| serde_json::json!({"what": "b", "v": available_bytes}));
         if available_bytes >= self.max_outstanding_bytes {
             return false;
         }
